@@ -263,6 +263,17 @@ PROPS["C09"] = {
     "rule": "case = one scripted lifetime; distinct_nontrivial counts distinct (configuration kind, #addresses, #cycles, cut sequence, final action, filter, fault) classes",
     "assumptions": ["mDNS sockets belong to the agent's lifetime, not to a generation: judged at Close only"],
 }
+PROPS["C15"] = {
+    "parts": [part("TestVerifC15", race=True, q=8, t=16, tq=900)],
+    "level": "exploration",
+    "engine": "E6 tcpmon",
+    "technique": "conservation/ordering monitor over real loopback TCP (every packet tagged with client id and counter; per-ufrag reads must equal what was addressed to that ufrag, in per-client order, with the client's address; tagged replies must return on the sender's socket), hostile-client disconnection check, post-Close census of listener, client connections, mux goroutines and file descriptors; race detector on",
+    "level_text": "1-4 ufrags (one optionally registered only after a client named it: adoption of the provisional connection), 1-12 concurrent clients of kinds good / unknown ufrag / garbage / non-Binding STUN / no USERNAME / oversized first frame / slow-loris / connect-and-close, "
+                  "first frame split across writes, with and without write buffering, optionally through MultiTCPMuxDefault; handle Close and RemoveConnByUfrag before mux Close.",
+    "level_note": "Timeouts are 120/150 ms and the verdict bound for 'must be disconnected' is 20x that; loopback TCP and the scheduler decide the interleavings.",
+    "rule": "case = one mux lifetime with its clients; distinct_nontrivial counts distinct (#ufrags, late registration, #clients, wrapper, set of client kinds) classes",
+    "assumptions": ["loopback TCP works in the sandbox"],
+}
 PROPS["C05"] = {
     "parts": [part("TestVerifC05", q=8, t=16, tq=900)],
     "level": "exploration",
